@@ -8,14 +8,15 @@ store `Model/Topics.lean`; specification: `Spec/Broker.lean` (`subCode`).  All
 theorems quantify over every state satisfying the representation invariant
 `Inv` (which `step` preserves from the initial state: `C07_inv_step`).
 -/
-import Mqtt.Proofs.BrokerFanout
+import Mqtt.Proofs.BrokerFanoutHeld
 
 set_option linter.unusedSimpArgs false
 
 namespace Mqtt.Properties.C07
 open Mqtt.Iface.Broker Mqtt.Model.Broker Mqtt.Proofs.Broker
-open Mqtt.Model.Topics (MemTopics)
-open Mqtt.Proofs.Topics (good)
+open Mqtt.Model.Topics (MemTopics levels)
+open Mqtt.Proofs.Topics (good abs WF)
+open Mqtt.Spec.Match (split validFilter)
 
 /-- the return code for one requested (filter, QoS byte), read off the topic
 store's own answer: the granted QoS `min(requested, server maximum)` if
@@ -24,6 +25,17 @@ def grantCode (mt : MemTopics) (c : Nat) (tq : Bytes × Nat) : Nat :=
   match (mt.subscribe Mqtt.Generated.maxQosAllowed tq.1 tq.2 c).2 with
   | some _ => min tq.2 Mqtt.Generated.maxQosAllowed
   | none => 0x80
+
+/-! ### the representation invariant -/
+
+/-- `Inv` (both tries well-formed - unique Go-map keys, one entry per subscriber
+and node -; every live connection's session reference resolves) holds of the
+initial state and is preserved by every event. -/
+theorem C07_inv_step : Inv {} ∧ ∀ (b : B) (e : Ev), Inv b → Inv (step b e).1 :=
+  ⟨Inv_init, Inv_step⟩
+
+/-- hence of every reachable state -/
+theorem C07_inv_run (es : List Ev) : Inv (run {} es).1 := Inv_run es {} Inv_init
 
 /-! ### (a) one SUBACK, first, same identifier, one code per filter in request order -/
 
@@ -76,6 +88,9 @@ def exState : B :=
   (run {} [exConnect 1 [97], exConnect 2 [98],
            .srvPub { qos := 1, retain := true, topic := [97, 47, 98], payload := [1, 2] }]).1
 
+/-- the example state satisfies the hypotheses of the theorems -/
+example : Inv exState := C07_inv_run _
+
 example :
     exState.alive 1 = true ∧
     (packet exState 1 (.subscribe 7 [([97, 47, 43], 1), ([97, 47, 35, 47, 120], 1), ([97, 47, 98], 3), ([97, 47, 98], 0)])).2 =
@@ -122,5 +137,106 @@ theorem C07_unsuback (b : B) (hinv : Inv b) (c id : Nat) (topics : List Bytes) (
 
 example : exState.alive 2 = true ∧
     (packet exState 2 (.unsubscribe 9 [[97, 47, 43], [120]])).2 = [.send 2 (.unsuback 9)] := by decide
+
+/-! ### (c) every listed filter takes effect -/
+
+/-- The SUBSCRIBE step on the subscription trie.  `entriesAfterSub c topics es`
+is the loop "for each requested (filter, QoS) in order: if the store accepts
+it, replace-or-add the entry (path of the filter, `c`, granted QoS)" over the
+entry list `es`.  The trie after the step holds exactly these entries; the
+entries of every other subscriber are the same as before; the invariant holds
+again.  (Paths are the level lists the code's own walk produces: no hypothesis
+on the filters.) -/
+theorem C07_subscribe_effect (b : B) (hinv : Inv b) (c id : Nat) (topics : List (Bytes × Nat))
+    (hl : b.alive c = true) :
+    Inv (packet b c (.subscribe id topics)).1 ∧
+    (abs (packet b c (.subscribe id topics)).1.topics.sroot).Perm (entriesAfterSub c topics (abs b.topics.sroot)) ∧
+    ((abs (packet b c (.subscribe id topics)).1.topics.sroot).filter (fun e => e.2.1 != c)).Perm
+      ((abs b.topics.sroot).filter (fun e => e.2.1 != c)) := by
+  have hp := packet_subscribe_sroot b hinv c id topics hl
+  refine ⟨Inv_packet b c _ hinv, hp, ?_⟩
+  have := hp.filter (fun e => e.2.1 != c)
+  rw [entriesAfterSub_others] at this
+  exact this
+
+/-- Every granted filter is subscribed when the SUBACK goes out: if the request
+at position `pre.length` is accepted, and no later accepted request of the same
+packet names the same filter (which would replace the QoS), the trie holds the
+entry (path of the filter, `c`, that request's return code). -/
+theorem C07_granted_is_held (b : B) (hinv : Inv b) (c id : Nat) (pre post : List (Bytes × Nat))
+    (t : Bytes) (q : Nat) (hl : b.alive c = true) (ha : accepts t q = true)
+    (hpost : ∀ tq ∈ post, accepts tq.1 tq.2 = true → (levels tq.1).1 ≠ (levels t).1) :
+    ((levels t).1, c, grantCode b.topics c (t, q)) ∈
+      abs (packet b c (.subscribe id (pre ++ (t, q) :: post))).1.topics.sroot := by
+  have hp := packet_subscribe_sroot b hinv c id (pre ++ (t, q) :: post) hl
+  rw [hp.mem_iff]
+  have hcode : grantCode b.topics c (t, q) = min q Mqtt.Generated.maxQosAllowed := by
+    simp [grantCode, subscribe_snd, ha]
+  rw [hcode]
+  exact entriesAfterSub_mem c pre post t q _ ha hpost
+
+/-- The UNSUBSCRIBE step on the subscription trie: exactly the entries of
+`c` under the paths of the listed filters disappear (`entriesAfterUnsub`); in
+particular no listed filter is subscribed for `c` afterwards, and the entries
+of every other subscriber are the same as before. -/
+theorem C07_unsubscribe_effect (b : B) (hinv : Inv b) (c id : Nat) (topics : List Bytes)
+    (hl : b.alive c = true) :
+    Inv (packet b c (.unsubscribe id topics)).1 ∧
+    (abs (packet b c (.unsubscribe id topics)).1.topics.sroot).Perm
+      (entriesAfterUnsub c topics (abs b.topics.sroot)) ∧
+    (∀ t ∈ topics, (levels t).2 = true → ∀ q,
+      ((levels t).1, c, q) ∉ abs (packet b c (.unsubscribe id topics)).1.topics.sroot) ∧
+    ((abs (packet b c (.unsubscribe id topics)).1.topics.sroot).filter (fun e => e.2.1 != c)).Perm
+      ((abs b.topics.sroot).filter (fun e => e.2.1 != c)) := by
+  have hp := packet_unsubscribe_sroot b hinv c id topics hl
+  refine ⟨Inv_packet b c _ hinv, hp, ?_, ?_⟩
+  · intro t ht hlv q hmem
+    exact entriesAfterUnsub_absent c topics t ht hlv _ q (hp.mem_iff.mp hmem)
+  · have := hp.filter (fun e => e.2.1 != c)
+    rw [entriesAfterUnsub_others] at this
+    exact this
+
+/-- Against the reference broker, for requests whose filters have no empty and
+no '$'-led level: if the trie holds exactly the specification's held
+subscriptions (`HeldInv`: entry (split filter, owner, QoS) per held
+subscription), it does so again after a SUBSCRIBE or UNSUBSCRIBE step of both
+(`Spec.Broker.step1`, any specification state with these held subscriptions
+that knows the connection). -/
+theorem C07_held_refines_partial (b : B) (hinv : Inv b) (c id : Nat) (hl : b.alive c = true)
+    (s : Mqtt.Spec.Broker.S) (hs : (Mqtt.Spec.Broker.getConn s c).isSome = true)
+    (hh : HeldInv b.topics.sroot s.held) :
+    (∀ topics : List (Bytes × Nat), (∀ tq ∈ topics, good tq.1 = true) →
+      HeldInv (packet b c (.subscribe id topics)).1.topics.sroot
+        (Mqtt.Spec.Broker.step1 s (.packet c (.subscribe id topics))).1.held) ∧
+    (∀ topics : List Bytes, (∀ t ∈ topics, good t = true) →
+      HeldInv (packet b c (.unsubscribe id topics)).1.topics.sroot
+        (Mqtt.Spec.Broker.step1 s (.packet c (.unsubscribe id topics))).1.held) := by
+  cases hcn : Mqtt.Spec.Broker.getConn s c with
+  | none => rw [hcn] at hs; exact absurd hs (by simp)
+  | some cn =>
+    constructor
+    · intro topics hg
+      have hp := packet_subscribe_sroot b hinv c id topics hl
+      obtain ⟨e1, e2⟩ := entriesAfterSub_held c topics hg s.held hh.valid
+      simp only [Mqtt.Spec.Broker.step1, hcn, specSubHeld_eq]
+      exact ⟨(hp.trans (entriesAfterSub_perm c topics _ _ hh.perm)).trans (by rw [e1]), e2⟩
+    · intro topics hg
+      have hp := packet_unsubscribe_sroot b hinv c id topics hl
+      have e1 := entriesAfterUnsub_held c topics hg s.held hh.valid
+      simp only [Mqtt.Spec.Broker.step1, hcn]
+      exact ⟨(hp.trans (entriesAfterUnsub_perm c topics _ _ hh.perm)).trans (by rw [e1]),
+        fun h hm => hh.valid h (List.mem_filter.mp hm).1⟩
+
+/-- non-vacuity: connection 1 subscribes "a/+" (1), "a/b" (2), "a/+" again (0):
+the later grant replaces the earlier; then unsubscribes "a/b"; the in-process
+subscriber's entry is untouched throughout. -/
+example :
+    let b0 := (step exState (.srvSub 1000 [97, 47, 35] 1)).1
+    let b1 := (packet b0 1 (.subscribe 1 [([97, 47, 43], 1), ([97, 47, 98], 2), ([97, 47, 43], 0)])).1
+    let b2 := (packet b1 1 (.unsubscribe 2 [[97, 47, 98], [120]])).1
+    b0.alive 1 = true ∧ b1.alive 1 = true ∧
+    abs b1.topics.sroot = [([[97], [35]], 1000, 1), ([[97], [43]], 1, 0), ([[97], [98]], 1, 2)] ∧
+    abs b2.topics.sroot = [([[97], [35]], 1000, 1), ([[97], [43]], 1, 0)] := by
+  decide
 
 end Mqtt.Properties.C07
